@@ -39,16 +39,21 @@ ASSUMPTIONS = [
     "candidate lists have distinct item identifiers",
     "a configured length of 0 is treated as outside the claim (the code reads it as 'unlimited', like C03)",
     "a negative run-time length is unspecified by the property when a positive length is configured (the rankers fall back to the configured one, the selector returns everything); the model follows the code, the oracle accepts either",
-    "scale factors up to 1000 (scaled scores stay finite in float64)",
+    "scale factors between -2 and 1000, including 0 and 2^-20 (scaled scores stay finite in float64)",
 ]
 RULE = ("structured generator: lists of 0-15 items with distinct ids, a second field, scores that are float32-exact quarter steps with blocks of "
         "equal / zero / negative values, NaN, +-inf, very large (2^100, 2^127) and very small magnitudes, empty and all-missing lists; component "
-        "RandomSelector / SoftmaxRanker / StochasticTopNRanker (softmax, linear, raw) with scale in {1/4,1/2,1,2,10,1000}; configured and run-time n in "
+        "RandomSelector / SoftmaxRanker / StochasticTopNRanker (softmax, linear, raw) with scale in {-2,-1/2,0,2^-20,1/4,1/2,1,2,10,1000}, plus a fixed grid of "
+        "every transform x every scale on each run; configured and run-time n in "
         "{None, -1, 1..20} (+ run-time 0); integer seeds and (seed, 'user') derived seeds with and without a query user; malformed stream: rankers on "
-        "a list without scores.  non-trivial = at least 3 eligible items, a non-empty output shorter than the eligible count or a ranker output of "
+        "a list without scores.  Distribution exercise (extra): 28 frequency tables, each a SEQUENCE of calls on one component -- uniform selection and "
+        "the rankers with fixed and (seed,'user')-derived seeds, anonymous queries, a few identified users, a new user on every call (identified users "
+        "re-asked afterwards must get the same sample), every transform with negative / zero / tiny / unit / large scale.  non-trivial = at least 3 eligible items, a non-empty output shorter than the eligible count or a ranker output of "
         "length >= 2; distinct = by hash of the case")
 
 TINY_F4 = Fraction(1, 2 ** 126)
+# scale factors: negative, zero, tiny, moderate, large
+SCALES = [Fraction(-2), Fraction(-1, 2), Fraction(0), Fraction(1, 2 ** 20), Fraction(1, 4), Fraction(1, 2), Fraction(1), Fraction(2), Fraction(10), Fraction(1000)]
 
 
 def translate():
@@ -97,7 +102,7 @@ def gen_case(rng, malformed=False):
         "rng": {"seed": rng.below(2 ** 31), "user": rng.chance(1, 3)},
         "user": rng.choice([None, 3, 17, 42]),
         "transform": rng.choice(["softmax", "linear", None]) if comp == "stochastic" else None,
-        "scale": fjson(rng.choice([Fraction(1, 4), Fraction(1, 2), Fraction(1), Fraction(1), Fraction(2), Fraction(10), Fraction(1000)])) if comp == "stochastic" else "1/1",
+        "scale": fjson(rng.choice(SCALES + [Fraction(1), Fraction(1)])) if comp == "stochastic" else "1/1",
         "items": items, "scores": True, "style": style,
     }
     if malformed and comp != "random":
@@ -107,8 +112,21 @@ def gen_case(rng, malformed=False):
 
 
 def gen_cases(rng, tier):
-    n = 600 if tier == "quick" else 5000
-    return [gen_case(rng.fork(k), malformed=(k % 25 == 24)) for k in range(n)]
+    n = 560 if tier == "quick" else 5000
+    out = [gen_case(rng.fork(k), malformed=(k % 25 == 24)) for k in range(n)]
+    # a fixed grid on every run: each transform with each scale factor (negative, zero, tiny, ..., large)
+    k = 0
+    for rep_ in range(1 if tier == "quick" else 4):
+        for tr in ("softmax", "linear", None):
+            for sc in SCALES:
+                c = gen_case(rng.fork(f"grid{k}"))
+                k += 1
+                ni = rng.fork(f"gridn{k}").randint(3, 9)
+                r2 = rng.fork(f"gridi{k}")
+                c.update(comp="stochastic", transform=tr, scale=fjson(sc), scores=True, style="grid",
+                         items=[[i, fjson(Fraction(r2.randint(-8, 24), 4)), r2.randint(0, 9)] for i in r2.sample(list(range(1, 60)), ni)])
+                out.append(c)
+    return out
 
 
 # ---------------------------------------------------------------------------------------------
@@ -405,7 +423,34 @@ def oracle(case, obs):
                                    f"(configured {case['cfg_n']}, run-time {case['run_n']})"))
     if case["comp"] != "random" and not obs["ordered"]:
         v.append((f"{tag}:not-ordered", "ranker output is not flagged as ordered"))
+    if "keys" in obs and not v:
+        _check_keys(v, tag, case, obs)
     return v
+
+
+def _check_keys(v, tag, case, obs):
+    """Given the uniform draws the ranker made, its output must be the top-n of log(U)/max(w, tiny) where w is the
+    documented transform of scale*score (weights recomputed here, independently of the component)."""
+    rows = [[r[0], f32(r[1]), r[2]] for r in case["items"]]
+    ids = [rows[k][0] for k in obs["key_pos"]]
+    key = dict(zip(ids, [fparse(k) for k in obs["keys"]]))
+    out = [r[0] for r in obs["out"]]
+    if any(i not in key for i in out):
+        return
+    ks = [key[i] for i in out]
+
+    def above(a, b):                     # a is above b by more than rounding noise
+        return a > b and (a - b) > Fraction(1, 10 ** 9) * max(abs(a), abs(b))
+    desc = f"transform {case['transform']}, scale {case['scale']}, seed {case['rng']}, uniform draws {[round(x, 6) for x in obs['calls'][0]['result']]}"
+    if any(above(b, a) for a, b in zip(ks, ks[1:])):
+        v.append((f"{tag}:keys-order", f"output {out} is not in decreasing order of log(U)/max(weight, tiny) for the documented weights "
+                                       f"{[round(float(fparse(w)), 6) for w in obs['weights']]} ({desc})"))
+    elif ks:
+        low = min(ks)
+        better = [i for i in ids if i not in out and above(key[i], low)]
+        if better:
+            v.append((f"{tag}:keys-topn", f"items {better} have a larger key than a selected item under the documented weights "
+                                          f"{[round(float(fparse(w)), 6) for w in obs['weights']]} ({desc})"))
 
 
 def nontrivial(case, obs):
@@ -455,21 +500,43 @@ def shrink(case, fails):
 # ---------------------------------------------------------------------------------------------
 
 
+def _seq_user(f, k):
+    """the query of the k-th call of a sequence: None (anonymous) or a user id"""
+    u = f.get("users", {"kind": "anonymous"})
+    if u["kind"] == "anonymous":
+        return None
+    if u["kind"] == "distinct":
+        return 1000 + k                       # a new identified user on every call
+    return u["ids"][k % len(u["ids"])]        # "cycle"
+
+
 def _freq_counts(case):
-    """run_impl of a frequency case: first-position and inclusion counts over many calls of one component."""
+    """run_impl of a frequency case: a sequence of calls on ONE component; first-position and inclusion counts,
+    and for user-derived seeds whether an identified user gets the same sample again."""
     f = case["freq"]
     comp, _ = make_component(case, record=False)
     il = make_items(case)
     ids = [r[0] for r in case["items"]]
     first = {i: 0 for i in ids}
     incl = {i: 0 for i in ids}
-    for _ in range(f["draws"]):
-        o = comp(items=il, query=None, n=case["run_n"]).ids().tolist()
+    memo = {}
+    changed = []
+    for k in range(f["draws"]):
+        u = _seq_user(f, k)
+        o = comp(items=il, query=u, n=case["run_n"]).ids().tolist()
         if o:
             first[o[0]] += 1
         for i in o:
             incl[i] += 1
-    return {"error": None, "first": [[i, first[i]] for i in ids], "included": [[i, incl[i]] for i in ids]}
+        if u is not None and len(memo) < 200:
+            memo.setdefault(u, o)
+    if case["rng"]["user"]:
+        for u, o in list(memo.items())[:100]:     # the same identified users once more, after everything else
+            o2 = comp(items=il, query=u, n=case["run_n"]).ids().tolist()
+            if o2 != o:
+                changed.append([u, o, o2])
+    return {"error": None, "first": [[i, first[i]] for i in ids], "included": [[i, incl[i]] for i in ids],
+            "rechecked_users": min(len(memo), 100) if case["rng"]["user"] else 0, "changed": changed[:3]}
 
 
 def _freq_rows(case, obs):
@@ -487,8 +554,15 @@ def _freq_rows(case, obs):
 
 def _freq_oracle(case, obs):
     f = case["freq"]
-    return [(f"frequency:{f['name']}", f"{f['name']}: item {r['item']} {r['what']} {r['count']} times in {f['draws']} draws, expected {r['expected']} (z = {r['z']} > 6)")
-            for r in _freq_rows(case, obs) if r["z"] > 6][:1]
+    who = (f"{case['comp']} transform={case['transform']} scale={case['scale']} seed={'(%d, user)' % case['rng']['seed'] if case['rng']['user'] else case['rng']['seed']} "
+           f"calls={f['draws']} x {f.get('users', {'kind': 'anonymous'})['kind']} queries on one component")
+    v = [(f"frequency:{f['name']}", f"{f['name']}: item {r['item']} {r['what']} {r['count']} times in {f['draws']} successive calls, expected {r['expected']} "
+                                    f"(z = {r['z']} > 6) [{who}]")
+         for r in _freq_rows(case, obs) if r["z"] > 6][:1]
+    if obs.get("changed"):
+        u, o, o2 = obs["changed"][0]
+        v.append((f"sequence:{f['name']}:user-not-reproducible", f"user-derived seed: user {u} got {o} and later {o2} from the same component [{who}]"))
+    return v
 
 
 _freq_done = False
@@ -508,30 +582,50 @@ def extra(rep, tier, rng):
     _freq_done = True
     _setup()
     draws = 20000 if tier == "quick" else 200000
+    grid_draws = 3000 if tier == "quick" else 30000
     tables = []
     seed = lambda: rng.below(2 ** 31)  # noqa: E731
-    base = {"cfg_n": None, "rng": {"seed": 0, "user": False}, "user": None, "scores": True, "style": "freq", "scale": "1/1", "transform": None}
+    base = {"cfg_n": None, "user": None, "scores": True, "style": "freq", "scale": "1/1", "transform": None}
     cases = []
+    anonymous, distinct, cycle = {"kind": "anonymous"}, {"kind": "distinct"}, {"kind": "cycle", "ids": [3, 17, 42]}
 
-    # uniform selection: 2 of 6, every item equally likely (inclusion n/k, first 1/k)
+    # uniform selection: 2 of 6, every item equally likely (inclusion n/k, first 1/k); fixed and user-derived seeds,
+    # anonymous and identified queries, always as a sequence of calls on one component
     items = [[i, fjson(Fraction(i, 2)), 0] for i in range(1, 7)]
-    cases.append({**base, "comp": "random", "run_n": 2, "items": items, "rng": {"seed": seed(), "user": False},
-                  "freq": {"name": "uniform 2 of 6", "draws": draws, "expect_first": [1 / 6] * 6, "expect_included": [2 / 6] * 6}})
+    for name, derived, users in (("uniform 2 of 6 / fixed seed / anonymous", False, anonymous),
+                                 ("uniform 2 of 6 / fixed seed / identified users", False, cycle),
+                                 ("uniform 2 of 6 / user-derived seed / anonymous", True, anonymous),
+                                 ("uniform 2 of 6 / user-derived seed / new user each call", True, distinct)):
+        cases.append({**base, "comp": "random", "run_n": 2, "items": items, "rng": {"seed": seed(), "user": derived},
+                      "freq": {"name": name, "draws": draws, "users": users, "expect_first": [1 / 6] * 6, "expect_included": [2 / 6] * 6}})
 
     scores = [Fraction(1, 2), Fraction(1), Fraction(2), Fraction(4)]
     items = [[10 + k, fjson(s), 0] for k, s in enumerate(scores)]
-    for name, comp, tr, scale in (("raw weights", "stochastic", None, "1/1"), ("linear", "stochastic", "linear", "1/1"),
-                                  ("softmax scale 1/2", "stochastic", "softmax", "1/2"), ("SoftmaxRanker", "softmax", None, "1/1")):
-        c = {**base, "comp": comp, "transform": tr, "scale": scale, "run_n": 2, "items": items, "rng": {"seed": seed(), "user": False}}
+
+    def ranker_case(name, comp, tr, scale, derived, users, n_draws):
+        c = {**base, "comp": comp, "transform": tr, "scale": scale, "run_n": 2, "items": items, "rng": {"seed": seed(), "user": derived}}
         w, tiny = harness_weights(c, [float(x) for x in scores])
         r = [max(x, tiny) for x in w]
-        c["freq"] = {"name": name, "draws": draws, "expect_first": [x / sum(r) for x in r], "expect_included": None}
-        cases.append(c)
+        c["freq"] = {"name": name, "draws": n_draws, "users": users, "expect_first": [x / sum(r) for x in r], "expect_included": None}
+        return c
+
+    cases.append(ranker_case("SoftmaxRanker / fixed seed / anonymous", "softmax", None, "1/1", False, anonymous, draws))
+    cases.append(ranker_case("SoftmaxRanker / user-derived seed / anonymous", "softmax", None, "1/1", True, anonymous, grid_draws))
+    cases.append(ranker_case("linear / user-derived seed / new user each call", "stochastic", "linear", "1/1", True, distinct, grid_draws))
+    # every transform with negative, zero, tiny, unit and large scale factors; seeds alternate fixed / user-derived
+    k = 0
+    for tr in (None, "linear", "softmax"):
+        for sc in (Fraction(-2), Fraction(-1, 2), Fraction(0), Fraction(1, 2 ** 20), Fraction(1, 2), Fraction(1), Fraction(10)):
+            k += 1
+            cases.append(ranker_case(f"{tr or 'raw'} scale {fjson(sc)}", "stochastic", tr, fjson(sc), k % 2 == 0, anonymous,
+                                     draws if sc == 1 else grid_draws))
     for c in cases:
         obs = run_impl(c)
         rows = _freq_rows(c, obs)
-        tables.append({"table": c["freq"]["name"], "draws": draws, "seed": c["rng"]["seed"], "max_z": max(r["z"] for r in rows), "rows": rows})
+        tables.append({"table": c["freq"]["name"], "draws": c["freq"]["draws"], "seed": c["rng"], "calls": c["freq"]["users"]["kind"],
+                       "rechecked_users": obs["rechecked_users"], "max_z": max(r["z"] for r in rows), "rows": rows})
         for key, what in oracle(c, obs):
             rep.violation(key, what, {"case": c, "observation": obs})
     rep.coverage["frequency_tables"] = tables
-    rep.coverage["tolerances"] = {"weights": "2^-40 relative (float64 harness re-implementation vs rational model)", "frequencies": "6 sigma binomial band"}
+    rep.coverage["tolerances"] = {"weights": "2^-40 relative (float64 harness re-implementation vs rational model)", "frequencies": "6 sigma binomial band",
+                                  "keys": "an excluded key must not exceed an included one by more than 1e-9 relative"}
